@@ -75,7 +75,7 @@ def pFPtr : P Ptr := fun ts => do
 def pCStr : P CStr := fun ts => do
   let (t, ts) ← tok ts
   if t = "~" then pure (.null, ts)
-  else if t = "!" then pure (.bad, ts)
+  else if t.startsWith "!" then pure (.bad, ts)
   else do
     let s ← unH t
     pure (.ok s, ts)
